@@ -263,5 +263,18 @@ def save (find : Finder) (m : Mem) (t : Fmt) (inPlace : Bool) : Option Mem :=
       let saveAs := !inPlace || m.fmt ≠ some t
       some { preload m c t saveAs with bound := some d, fmt := some t }
 
+/-- `Font.save(path, formatVersion=t)` that FAILS AT THE FINAL REPLACE: everything was read and written
+into the temporary UFO, the new UFO could not be moved onto the destination and the destination was put
+back (M-Replace).  Only a save that goes through a temporary UFO can end this way — a conversion in place
+or a save over an existing path, a save-as in both cases.  The font stays bound to the UFO it was bound
+to and reports the format it reported; what the save read stays read.  `none`: as for `save`. -/
+def saveFailsAtReplace (find : Finder) (m : Mem) (t : Fmt) : Option Mem :=
+  match observe m with
+  | none => none
+  | some c =>
+    match write find t m.maps c with
+    | none => none
+    | some _ => some (preload m c t true)
+
 end Conv
 end DefconModel
